@@ -10,6 +10,7 @@ from ural.utils import (
 )
 from ural.quote import (
     safely_unquote_auth_item,
+    safely_unquote_password,
     safely_unquote_path,
     safely_unquote_qsl,
     safely_unquote_fragment,
@@ -85,7 +86,7 @@ def canonicalize_url(
             user = safely_quote(user)
 
     if password:
-        password = safely_unquote_auth_item(password)
+        password = safely_unquote_password(password)
 
         if quoted:
             password = safely_quote(password)
